@@ -77,6 +77,13 @@ func (c *configQuoteAwarePostProcessors) PostProcessProperties(properties []*com
 						return "", errors.Wrapf(err, "parse config quote default value '%s' error", defaultValue)
 					}
 					expVal = parsedVal
+					switch parsedVal.(type) {
+					case float64, bool:
+						//a scalar default is spliced in as written: formatting the parsed value back
+						//would turn "007" into "7", "1.50" into "1.5" and "TRUE" into "true"
+						prop.SetConfiguration(exp, expVal)
+						return defaultValue, nil
+					}
 				}
 			}
 			prop.SetConfiguration(exp, expVal)
